@@ -916,6 +916,9 @@ func (t *AwaitTxConfirmationAction) Execute(services *SwapServices, swap *SwapDa
 				"exceeded safe swap range.",
 			))
 		}
+		if err := checkBitcoinClaimTimelock(height, swap.StartingBlockHeight, validator.GetCSVHeight(), finalCLTVDelta); err != nil {
+			return swap.HandleError(err)
+		}
 	} else if err := checkPaymentWindow(swap, height, policy); err != nil {
 		return swap.HandleError(err)
 	}
@@ -972,6 +975,14 @@ func (p *ValidateTxAndPayClaimInvoiceAction) Execute(services *SwapServices, swa
 		return Event_ActionSucceeded
 	}
 
+	var finalCLTVDelta int64
+	if swap.GetChain() == btc_chain {
+		_, _, finalCLTVDelta, err = lc.DecodePayreq(swap.OpeningTxBroadcasted.Payreq)
+		if err != nil {
+			return swap.HandleError(err)
+		}
+	}
+
 	var retryTime time.Duration = 120 * time.Second
 	var interval time.Duration = 10 * time.Second
 
@@ -1010,6 +1021,12 @@ func (p *ValidateTxAndPayClaimInvoiceAction) Execute(services *SwapServices, swa
 				log.Debugf("[Swap:%s] passed csv limit blockheight now=%d, blockheight starting=%d", swap.GetId(), now, swap.StartingBlockHeight)
 				swap.LastErr = err
 				return swap.HandleError(err)
+			}
+			if swap.GetChain() == btc_chain {
+				if err := checkBitcoinClaimTimelock(now, swap.StartingBlockHeight, validator.GetCSVHeight(), finalCLTVDelta); err != nil {
+					log.Debugf("[Swap:%s] claim payment is outside the safe window: %v", swap.GetId(), err)
+					return swap.HandleError(err)
+				}
 			}
 			if swap.GetChain() == l_btc_chain {
 				if err := checkPaymentWindow(swap, now, policy); err != nil {
